@@ -7,7 +7,7 @@ use std::sync::Arc;
 use xplore::*;
 
 const EPS: [f64; 4] = [0.0, f64::EPSILON, 1e-3, f64::INFINITY];
-const REL: [f64; 3] = [0.0, f64::EPSILON, 1e-3];
+const REL: [f64; 4] = [0.0, f64::EPSILON, 1e-3, 2.0];
 /// multiplicative perturbations: none, inside the 1e-3 tolerances, outside them
 const PERT: [f64; 3] = [1.0, 1.0 + 4e-4, 1.0 + 2.5e-3];
 
@@ -117,6 +117,8 @@ fn cases() -> Vec<Case> {
     v
 }
 
+#[allow(dead_code)]
+fn mantissa_note() {}
 fn base(n: usize) -> Vec<f64> {
     // magnitudes from 1e-3 to 1e6, both signs, pairwise different
     let scale = [1.0, 1e-3, 1e3, 1e6, 0.25, 17.0, 1e-2, 300.0, 1.0, 1e5, 2.0, 0.5];
@@ -177,7 +179,7 @@ pub fn check(thorough: bool, _seed: u64) -> Check {
         classes: vec![("abs_diff_eq_false", true), ("abs_diff_eq_true", true), ("relative_eq_false", true), ("relative_eq_true", true), ("single_number_perturbed", true)],
         bounds: json!({"types": "every type implementing the approx traits (list under approx_types)",
             "pairs": format!("base value vs every assignment of {{x1, x(1+4e-4), x(1+2.5e-3)}} to each of the first {} numbers (single sweeps beyond)", if thorough {11} else {9}),
-            "tolerances": "epsilon in {0, f64::EPSILON, 1e-3, +inf} x max_relative in {0, f64::EPSILON, 1e-3}; both relations, both argument orders, =="}),
+            "tolerances": "epsilon in {0, f64::EPSILON, 1e-3, +inf} x max_relative in {0, f64::EPSILON, 1e-3, 2}; both relations, both argument orders, =="}),
     };
     // special values and length mismatches
     let cs3 = cs.clone();
@@ -191,11 +193,22 @@ pub fn check(thorough: bool, _seed: u64) -> Check {
             let mut b = a.clone();
             if c.n > 0 {
                 let lane = cx.choose(c.n);
-                let v = [0.0, -0.0, f64::EPSILON, -a[lane], a[lane] + 1e-3, exact::succ(a[lane]), 1e300, f64::INFINITY][cx.choose(8)];
+                let al = a[lane];
+                let s2 = exact::succ(exact::succ(al));
+                let vals = [
+                    0.0, -0.0, f64::EPSILON, -al, al + 1e-3, exact::succ(al), 1e300, f64::INFINITY,
+                    // a few ulps away, and exactly one tolerance away (boundary of <=)
+                    s2, exact::succ(s2), exact::pred(exact::pred(al)), al + al.abs() * f64::EPSILON, al * (1.0 + 1e-3), al + 1e-3 * al.abs().max(1.0),
+                ];
+                let v = vals[cx.choose(vals.len())];
                 b[lane] = v;
                 if cx.flag() {
                     let mut a2 = a.clone();
-                    a2[lane] = [0.0, 1e-4, f64::INFINITY][cx.choose(3)];
+                    a2[lane] = [0.0, 1e-4, f64::INFINITY, 1.5e308, -1.5e308, 3e-308, -2.5e-308, 1e-310][cx.choose(8)];
+                    if cx.flag() {
+                        // the other operand at the same extreme scale
+                        b[lane] = -a2[lane] * [1.0, 1.001, 0.5][cx.choose(3)];
+                    }
                     let eps = *cx.pick(&EPS);
                     let rel = *cx.pick(&REL);
                     cx.nontrivial();
@@ -213,7 +226,7 @@ pub fn check(thorough: bool, _seed: u64) -> Check {
             (c.run)(&a, &b, eps, rel).map(|_| ()).map_err(|(what, d)| Fail::new(what, json!({"a": fjs(&a), "b": fjs(&b), "epsilon": fj(eps), "max_relative": fj(rel), "observation": d})))
         }),
         classes: vec![],
-        bounds: json!({"pairs": "one number replaced by {0,-0.0,EPSILON,-x,x+1e-3,succ(x),1e300,+inf}, optionally against {0,1e-4,+inf} in the same position of the other operand"}),
+        bounds: json!({"pairs": "one number replaced by {0,-0.0,EPSILON,-x,x+1e-3,succ(x),1e300,+inf, x+-2ulp, x+3ulp, x+|x|EPSILON, x(1+1e-3), x+1e-3 max(|x|,1)}, optionally against {0,1e-4,+inf,+-1.5e308,3e-308,-2.5e-308,1e-310} (and its negated / scaled copy) in the same position of the other operand"}),
     };
     // long piecewise functions / PolyN: one number perturbed at every position in turn (blocked or chunked comparisons)
     let big = Phase {
